@@ -155,6 +155,9 @@ fn check_stream(mut s: ByteStream, model: &[u8], cx: &mut Ctx, how: &str) {
 }
 
 fn pick_range(rng: &mut Rng, len: usize) -> (usize, usize) {
+    if rng.chance(1, 6) {
+        return (0, len);
+    }
     let off = match rng.below(4) {
         0 => 0,
         1 => len,
@@ -268,8 +271,16 @@ impl TCheck for C13 {
         // `AsRef<[u8]>` value converts into a `Reader`); raw or decoded is decided by the hints
         let backing = rng.below(3);
         let comp = *rng.pick(&[Comp::None, Comp::Zstd(3), Comp::Lz4(3), Comp::Lzma(1), Comp::Zstd(3)]);
-        let n = rng.range(3, 14) as usize;
-        let mut contents = crate::c08::gen_contents(&mut rng, n, 3000, &[SrcKind::Cursor], comp);
+        // one work in ten has contents larger than 64 KiB (views and slices beyond 65535 bytes)
+        let big = work % 10 == 9;
+        let n = if big { rng.range(2, 4) as usize } else { rng.range(3, 14) as usize };
+        let mut contents = crate::c08::gen_contents(&mut rng, n, if big { 200_000 } else { 3000 }, &[SrcKind::Cursor], comp);
+        if big {
+            // at least one content well above 64 KiB
+            let last = contents.len() - 1;
+            let len = rng.range(70_000, 200_000) as usize;
+            contents[last].bytes = Arc::new(gen::gen_bytes(&mut rng, last, len, gen::Flavor::Text));
+        }
         for c in contents.iter_mut() {
             c.pack = 1;
         }
@@ -299,7 +310,7 @@ impl TCheck for C13 {
         let image = build_image(&hooks, logical.clone(), &dir, &create_knobs, simcore::prng::hash_label(seed, "c13-img", work));
         let pack_path = dir.join("img.c1.jbkc");
         let pack_bytes = Arc::new(std::fs::read(&pack_path).unwrap_or_else(|e| simcore::harness_error(&format!("C13: {e}"))));
-        let chunk = *rng.pick(&[1u64, 7, 64]);
+        let chunk = if big { 4096 } else { *rng.pick(&[1u64, 7, 64]) };
         let knobs = vec![
             ("decode_chunk", chunk),
             ("cluster_cache", *rng.pick(&[2u64, 40])),
